@@ -2,6 +2,9 @@
 //! ndjson traces for TLC.  It never decides a property.
 mod enc;
 mod irenc;
+mod irgen;
+mod domenc;
+mod pigen;
 mod pcodegen;
 mod elfgen;
 mod cli;
